@@ -4,13 +4,13 @@ import json, os, subprocess, sys
 V = os.path.dirname(os.path.abspath(__file__))
 sys.path.insert(0, V)
 from units import UNITS, LEVELS, META
-from manifest_meta import NOT_APPLICABLE, HOOK_COMMITS
+from manifest_meta import NOT_APPLICABLE, HOOK_COMMITS, READY
 
 props = [json.loads(l) for l in open(os.path.join(V, "properties.jsonl")) if l.strip()]
 checks = []
 for p in props:
     pid = p["id"]
-    if pid not in UNITS or pid not in META:
+    if pid not in UNITS or pid not in META or pid not in READY:
         continue
     m = META[pid]
     checks.append({
